@@ -22,7 +22,16 @@ from .core import Analysis, Run, VERIF
 
 def load_corpus():
     p = VERIF / 'pbv' / 'selftest_corpus.json'
-    return json.loads(p.read_text())
+    corpus = json.loads(p.read_text())
+    # the independently seeded changes (seeded/<name>/patch.diff) are part of the regression corpus
+    from .props import ALL
+    for d in sorted((VERIF / 'seeded').glob('S*/')):
+        meta, patch = d / 'meta.json', d / 'patch.diff'
+        if meta.exists() and patch.exists():
+            m = json.loads(meta.read_text())
+            if m.get('confirmed'):
+                corpus.append(dict(id='seed-' + d.name, kind='mutant', property=m['property'], properties=list(ALL), expect=None, patch_abs=str(patch), edits=[]))
+    return corpus
 
 
 def apply_unified_diff(text, root):
@@ -69,6 +78,8 @@ def apply_unified_diff(text, root):
 
 def apply_variant(v, root):
     import pathlib
+    if v.get('patch_abs'):
+        return apply_unified_diff(pathlib.Path(v['patch_abs']).read_text(), root)
     if v.get('patch'):
         return apply_unified_diff((VERIF / 'pbv' / v['patch']).read_text(), root)
     overlay = {}
